@@ -78,7 +78,12 @@ def setup (c : Cluster) (toks : List String) : Option Cluster :=
     | _, _, _, _, _ => none
   | ["COMMITTED", g, t, p, o] =>
     match fromHex g, fromHex t, p.toInt?, o.toInt? with
-    | some g, some t, some p, some o => some { c with groups := setGroup c.groups (g, t, p) o }
+    -- the same offset in both stores
+    | some g, some t, some p, some o => some { c with groups := setGroup (setGroup c.groups (storeGroup 0 g, t, p) o) (storeGroup 1 g, t, p) o }
+    | _, _, _, _ => none
+  | ["COMMITTEDIN", store, g, t, p, o] =>
+    match fromHex g, fromHex t, p.toInt?, o.toInt? with
+    | some g, some t, some p, some o => some { c with groups := setGroup c.groups (storeGroup (if store == "zk" then 0 else 1) g, t, p) o }
     | _, _, _, _ => none
   | ["COORD", n] => n.toInt?.map fun n => { c with coordinator := n }
   | ["FAULT", api, t, p, code, count] =>
